@@ -163,9 +163,9 @@ macro_rules! u_drop_second { ($name:ident, $A:ty, $B:ty, $mkb:expr, $kb:expr, $n
 } } }; }
 
 // ---- pair tr_tr16: ArcUnion<Tr, Tr16>
-// @h props=C12,C01,C04 fuc=ArcUnion::from_first,ArcUnion::is_first,ArcUnion::is_second
+// @h props=C12,C01,C04,C03,C09 fuc=ArcUnion::from_first,ArcUnion::is_first,ArcUnion::is_second
 u_from_first!(c12_union_from_first__tr_tr16, Tr, Tr16, Tr::new());
-// @h props=C12,C01,C04 fuc=ArcUnion::from_second,ArcUnion::is_first,ArcUnion::is_second
+// @h props=C12,C01,C04,C03,C09 fuc=ArcUnion::from_second,ArcUnion::is_first,ArcUnion::is_second
 u_from_second!(c12_union_from_second__tr_tr16, Tr, Tr16, Tr16::new());
 // @h props=C12,C11,C01 fuc=ArcUnion::borrow,ArcUnion::as_first,ArcUnion::as_second,ArcBorrow::from_ptr
 u_acc_first!(c12_union_acc_first__tr_tr16, Tr, Tr16, Tr::new());
@@ -177,7 +177,7 @@ u_count_first!(c12_union_count_first__tr_tr16, Tr, Tr16, Tr::new());
 u_count_second!(c12_union_count_second__tr_tr16, Tr, Tr16, Tr16::new());
 // @h props=C12,C01,C04,C16 tier=thorough fuc=ArcUnion::clone,ArcBorrow::clone_arc,ArcUnion::ptr_eq
 u_clone_first!(c12_union_clone_first__tr_tr16, Tr, Tr16, Tr::new());
-// @h props=C12,C01,C04,C16 fuc=ArcUnion::clone,ArcBorrow::clone_arc,ArcUnion::ptr_eq
+// @h props=C12,C01,C04,C16,C03,C08,C09 fuc=ArcUnion::clone,ArcBorrow::clone_arc,ArcUnion::ptr_eq
 u_clone_second!(c12_union_clone_second__tr_tr16, Tr, Tr16, Tr16::new());
 // @h props=C12,C01,C04,C05 fuc=ArcUnion::drop,Arc::from_raw,Arc::drop
 u_drop_first!(c12_union_drop_first__tr_tr16, Tr, Tr16, Tr::new(), 0, 1);
@@ -310,6 +310,38 @@ gproof! { fn c14_union_debug_by_value() {
     core::mem::forget(u);
 } }
 
+// @h props=C12,C14 fuc=ArcUnion::fmt note="whatever the Debug form of a union is (transparent, or labelled with the variant), it never names the OTHER variant: the payload here prints nothing, so the first byte written is the label's, if any"
+gproof! { fn c12_union_debug_never_names_other_variant() {
+    use crate::vrt::Ip;
+    let u1: ArcUnion<Ip, Ip> = ArcUnion::from_first(Arc::new(Ip(kani::any())));
+    let u2: ArcUnion<Ip, Ip> = ArcUnion::from_second(Arc::new(Ip(kani::any())));
+    let (f1, f2) = (vrt::debug_first_byte(&u1), vrt::debug_first_byte(&u2));
+    assert!(f1 != b'S' && f2 != b'F');
+    assert!(vrt::ip_calls(crate::vrt::OP_DEBUG) == 2);
+    core::mem::forget(u1);
+    core::mem::forget(u2);
+} }
+
+macro_rules! u_eq_no_transient { ($name:ident, $ctor:ident) => { gproof! { fn $name() {
+    use crate::vrt::Ip;
+    let n = any_count();
+    let a = mk(Ip(kani::any()), n);
+    let b = Arc::new(Ip(kani::any()));
+    let ca = cw(&a);
+    vrt::ip_setup(data(&a), data(&b));
+    let u1: ArcUnion<Ip, Ip> = ArcUnion::$ctor(a);
+    let u2: ArcUnion<Ip, Ip> = ArcUnion::$ctor(b);
+    vrt::ip_watch(ca);
+    let r = u1 == u2;
+    assert!(vrt::ip_consulted() && vrt::ip_seen_only(n) && rd(ca) == n);
+    core::mem::forget(u1);
+    core::mem::forget(u2);
+} } }; }
+// @h props=C04,C14,C12 fuc=ArcUnion::eq note="C04 'not even while the borrow is in use': the count is watched WHILE the payload's eq runs - comparing two unions creates no transient owner (first variant)"
+u_eq_no_transient!(c04_union_eq_holds_no_transient_owner__first, from_first);
+// @h props=C04,C14,C12 fuc=ArcUnion::eq note="same, second variant"
+u_eq_no_transient!(c04_union_eq_holds_no_transient_owner__second, from_second);
+
 // @h props=C12,C14 fuc=ArcUnion::eq,ArcUnion::ptr_eq note="the SAME allocation held as first and as second variant (equal payload types): still different variants, never equal"
 gproof! { fn c12_union_eq_cross_variant_same_allocation() {
     let a = Arc::new(S1::any());
@@ -350,3 +382,28 @@ fn c12_chk_union_from_second() {
     kani::cover!(true, "END");
     core::mem::forget(u);
 }
+
+// @h props=C12,C01,C04 tier=thorough fuc=ArcUnion::clone_from,ArcUnion::clone,ArcUnion::drop note="provided Clone::clone_from; the SAME allocation held under the other variant: the destination takes the source's variant (concrete count 2, byte payload: union obligations are memory-hungry in CBMC)"
+gproof! { fn c12_union_clone_from__same_block_other_variant() {
+    let x = mk(S1::any(), 2);
+    let c0 = cw(&x);
+    let y = unsafe { core::ptr::read(&x) };
+    let mut u1: ArcUnion<S1, S1> = ArcUnion::from_first(x);
+    let u2: ArcUnion<S1, S1> = ArcUnion::from_second(y);
+    u1.clone_from(&u2);
+    assert!(u1.is_second() && word(&u1) == word(&u2) && ArcUnion::ptr_eq(&u1, &u2) && rd(c0) == 2 && vrt::gd(0));
+    core::mem::forget(u1);
+    core::mem::forget(u2);
+} }
+// @h props=C12,C01,C04 tier=thorough fuc=ArcUnion::clone_from,ArcUnion::clone,ArcUnion::drop note="provided Clone::clone_from onto another allocation of the other variant (sole owners)"
+gproof! { fn c12_union_clone_from__other_block() {
+    let a = Arc::new(Z);
+    let b = Arc::new(S1::any());
+    let (ba, cb) = (base(&a), cw(&b));
+    let mut u1: ArcUnion<Z, S1> = ArcUnion::from_first(a);
+    let u2: ArcUnion<Z, S1> = ArcUnion::from_second(b);
+    u1.clone_from(&u2);
+    assert!(u1.is_second() && word(&u1) == word(&u2) && rd(cb) == 2 && !vrt::g_live(ba) && vrt::gd(1));
+    core::mem::forget(u1);
+    core::mem::forget(u2);
+} }
